@@ -16,13 +16,9 @@ def handle (fs : List String) : String :=
   | none => "bad-op"
   | some ops => " ".intercalate ((trace State.init ops).map showStep)
 
-/-- counter-example lines replayed on the implementation on every run (proved in Witness.lean,
-    `default_logger_full_fails`, finding F22 — caddy.Log() is left at the default log of a
-    configuration that is not running): over a running config (a) a load rejected while
-    provisioning an app, (b) a successful Validate. (The former F2 and F21 witnesses are regression
-    cases in corpus/C01.) -/
-def witnessLines : List String :=
-  ["L=0~-~0,1,0,-,-=1,0,0,-,0,0 L=0~-~0,1,3,-,-~0:1=1,0,0,-,0,-",
-   "L=0~-~0,1,0,-,-=1,0,0,-,0,0 V=0~-~0,3,0,-,-~0:2=0,0,0,-,0,-"]
+/-- counter-example lines replayed on the implementation on every run: none — every C01 statement
+    is proved at full strength for the code as it is now. (The former F2, F21 and F22 witnesses are
+    regression cases in corpus/C01.) -/
+def witnessLines : List String := []
 
 end CaddyModel.C01
